@@ -6,7 +6,7 @@ PROP = {
     "streams": [{"name": "broker", "harness": "umh_broker", "driver": "broker"}],
     "search_s": 300,
     "assumptions": [
-        "non-ordered mode only (enable_ordered_proxy = true is not modelled)",
+        "both modes of MetaStore are modelled (enable_ordered_proxy = false / true; a history of an ordered-mode broker starts with the pseudo-operation Op.setOrdered, see notes/ordered.md); about a quarter of the generated cases run MetaStore::new(true)",
         "HashMap-order dependent allocation choices are fed from the implementation and validated by the model's "
         "allowed-set check; the C10 theorems hold for every choice",
         "at most SLOT_NUM = 16384 masters per cluster (beyond that create_slots / the planners cut zero-length ranges; "
